@@ -14,6 +14,96 @@ func init() {
 	vrt.Register("h_log.QueryTime", QueryTime)
 	vrt.Register("h_log.QueryKey", QueryKey)
 	vrt.Register("h_log.NoIndex", NoIndex)
+	vrt.Register("h_log.QueryKeyReal", QueryKeyReal)
+}
+
+// realKeys: two pairs of distinct 8-byte keys with equal FNV-1a-64 hashes (real
+// collisions, found by a distinguished-point search; re-verified on every run)
+// and an unrelated key.
+var realKeys = [][]byte{
+	{0x21, 0x6c, 0xa7, 0x92, 0x9c, 0x97, 0x91, 0xca},
+	{0x30, 0xde, 0x95, 0xee, 0x30, 0xd5, 0xce, 0x4a},
+	{0x31, 0x62, 0xc9, 0x80, 0x05, 0xa6, 0x8d, 0x30},
+	{0x8e, 0x62, 0xb6, 0x8d, 0x7d, 0xdd, 0xbe, 0xab},
+	{1, 2, 3, 4, 5, 6, 7, 8},
+}
+
+// QueryKeyReal: as QueryKey, but the keys are drawn from a table that contains
+// real FNV-1a-64 collision pairs, so that every counterexample is reproducible
+// natively (the hashes are computed, not uninterpreted).
+func QueryKeyReal() {
+	vrt.Assert(vrt.FNV64a(realKeys[0]) == vrt.FNV64a(realKeys[1]) && vrt.FNV64a(realKeys[2]) == vrt.FNV64a(realKeys[3]), "the collision table holds real FNV-1a-64 collisions")
+	sh := kit.ChooseShape()
+	sh.KeyLen = 8
+	l := kit.Gen(sh, false, true)
+	nk := vrt.Bound("realkeys", 3)
+	for si := range l.Segs {
+		for ri := range l.Segs[si].Recs {
+			k := realKeys[vrt.Choose("rk", nk)]
+			if len(l.Segs[si].Recs[ri].Key) == 8 {
+				// concrete key bytes: hashes are then computed with the real FNV-1a
+				l.Segs[si].Recs[ri].Key = append([]byte{}, k...)
+			}
+		}
+	}
+	if vrt.Choose("noindex", 2) == 1 {
+		for i := range l.Segs {
+			l.Segs[i].Index = false
+		}
+	}
+	l.Build("d")
+	lg := openLog(l, l.Options())
+	live := l.Live()
+	k := realKeys[vrt.Choose("qk", nk)]
+	m, err := lg.GetByKey(k)
+	off, oerr := lg.OffsetByKey(k)
+	last := -1
+	collide := false
+	for i := range live {
+		if vrt.BytesEqual(live[i].Key, k) {
+			last = i
+		} else if len(live[i].Key) == 8 && vrt.FNV64a(live[i].Key) == vrt.FNV64a(k) {
+			collide = true
+		}
+	}
+	if collide {
+		vrt.Reach("real-hash-collision")
+	}
+	if last < 0 {
+		vrt.Assert(vrt.ErrIs(err, klevdb.ErrNotFound) && vrt.ErrIs(oerr, klevdb.ErrNotFound), "no live message with that key => ErrNotFound")
+	} else {
+		vrt.Assert(err == nil, "key present: no error (also when another key shares its hash)")
+		if err == nil {
+			vrt.Assert(kit.Same(m, live[last]), "GetByKey returns the live message with the greatest offset and exactly that key")
+		}
+		vrt.Assert(oerr == nil && off == live[last].Off, "OffsetByKey agrees")
+	}
+	var want []kit.Rec
+	for i := range live {
+		if vrt.BytesEqual(live[i].Key, k) {
+			want = append(want, live[i])
+		}
+	}
+	q := klevdb.OffsetOldest
+	seen := 0
+	for step := 0; step < len(live)+len(l.Segs)+2; step++ {
+		next, msgs, cerr := lg.ConsumeByKey(k, q, 2)
+		vrt.Assert(cerr == nil, "ConsumeByKey: no error")
+		if cerr != nil {
+			return
+		}
+		for _, x := range msgs {
+			vrt.Assert(seen < len(want) && kit.Same(x, want[seen]), "ConsumeByKey: exactly the live messages with that key, in order, never one with another key")
+			seen++
+		}
+		if len(msgs) == 0 {
+			vrt.Assert(next == l.Next, "ConsumeByKey: ends at NextOffset")
+			break
+		}
+		q = next
+	}
+	vrt.Assert(seen == len(want), "ConsumeByKey visits every live message with the key")
+	vrt.Assert(lg.Close() == nil, "Close")
 }
 
 // QueryTime: GetByTime/OffsetByTime return the first live message at or after t (C10).
@@ -160,6 +250,31 @@ func QueryKey() {
 		}
 		vrt.Assert(next == msgs[len(msgs)-1].Offset+1, "ConsumeByKey: next = last + 1")
 		q = next
+	}
+	// an arbitrary absolute cursor (e.g. one saved before older segments were trimmed)
+	cq := vrt.Int64("cq")
+	vrt.Assume(cq >= 0 && cq <= l.Next)
+	cnext, cmsgs, cerr := lg.ConsumeByKey(k, cq, int64(max))
+	vrt.Assert(cerr == nil, "ConsumeByKey from any offset <= NextOffset: no error")
+	if cerr == nil {
+		var from []kit.Rec
+		for i := range want {
+			if want[i].Off >= cq {
+				from = append(from, want[i])
+			}
+		}
+		vrt.Assert(len(cmsgs) <= len(from), "ConsumeByKey from an offset: only live messages with the key at or after it")
+		for j, x := range cmsgs {
+			if j < len(from) {
+				vrt.Assert(kit.Same(x, from[j]), "ConsumeByKey from an offset: exactly the live messages with the key at or after it, in order")
+			}
+		}
+		if len(cmsgs) == 0 {
+			vrt.Assert(len(from) == 0 && cnext == l.Next, "ConsumeByKey: empty only if no such message is left; then next = NextOffset")
+		}
+		if cq < l.Segs[0].Base {
+			vrt.Reach("cursor-before-first-segment")
+		}
 	}
 	vrt.Assert(done, "ConsumeByKey cursor terminates")
 	vrt.Assert(seen == len(want), "ConsumeByKey visits every live message with the key")
